@@ -94,12 +94,12 @@ def main(argv):
         reproduced, detail = None, 'no replay oracle for this obligation'
         o = obmap.get(oid)
         replays_done[oid] = replays_done.get(oid, 0) + 1
-        if o is not None and o.replay is not None and g.get('model') and replays_done[oid] > 2:
+        if o is not None and o.replay is not None and replays_done[oid] > 2:
             detail = 'not replayed: two failures of the same obligation group %s were already replayed in this run' % oid
-        elif o is not None and o.replay is not None and g.get('model'):
+        elif o is not None and o.replay is not None:
             wd = native.workdir('replay')
             try:
-                reproduced, detail = o.replay(g['model'], wd)
+                reproduced, detail = o.replay(g.get('model') or {}, wd)
             except Exception as e:
                 reproduced, detail = None, 'replay failed to run: %s' % e
             finally:
